@@ -149,3 +149,60 @@ def outline(node):
         elif isinstance(ch, nodes.paragraph):
             out.append(("p", ch.astext(), None))
     return out
+
+
+# ------------------------------------------------------------------ full docutils pipeline
+
+P = {}
+
+
+def setup_pipeline():
+    """Instrumented copy of the docutils front end (Parser) on top of the instrumented renderer modules."""
+    setup()
+    if P:
+        return P
+    mods = load_instrumented(["myst_parser.parsers.docutils_"])
+    P["docutils_"] = mods["myst_parser.parsers.docutils_"]
+    return P
+
+
+def publish(text, overrides=None, real=False, source="src.md"):
+    """Parse `text` and run the standard transform pipeline.  Returns (document, warning_text)."""
+    from docutils.core import publish_doctree
+
+    if real:
+        from myst_parser.parsers.docutils_ import Parser
+    else:
+        Parser = setup_pipeline()["docutils_"].Parser
+    stream = io.StringIO()
+    so = {"report_level": 2, "halt_level": 6, "warning_stream": stream, "output_encoding": "unicode"}
+    so.update(overrides or {})
+    doc = publish_doctree(text, source_path=source, parser=Parser(), settings_overrides=so)
+    return doc, stream.getvalue()
+
+
+class Choice:
+    """Solver-enumerated choices for grammar-generated documents (assume + case-split concretisation)."""
+
+    def __init__(self, eng, n=32, width=15):
+        from symx.sstr import new_int
+
+        self.eng = eng
+        self.ch = [new_int(eng, "ch%d" % i, 0, width) for i in range(n)]
+        self.i = 0
+
+    def reset(self):
+        self.i = 0
+
+    def choose(self, n):
+        from symx import core
+
+        if self.i >= len(self.ch):
+            raise core.PathAbort("choice pool exhausted")
+        v = self.ch[self.i]
+        self.i += 1
+        self.eng.assume(v < n)
+        return self.eng.concretize_int(v)
+
+    def pick(self, seq):
+        return seq[self.choose(len(seq))]
